@@ -13,21 +13,11 @@ standard_2001010113).  `C19_cmp_order` answers the question of the design: the c
 to `sort.Slice` by the old code is a strict total order on view names (so "sorted" was
 well defined and the sort was not the defect; the level/skipAbove bookkeeping was).
 -/
-import PV.C19.Model
-import PV.C19.Old
-import PV.C19.Spec
+import PV.C19.Lemmas
 namespace PV.C19
 open PV.C18 List
 
 /-! ### The fixed code -/
-
-theorem clearBit_views (f : Field) (r c : Nat) :
-    (clearBit f r c).1.views = f.views.map (fun v => (clearInView v r c).1) := by
-  simp only [clearBit, List.map_map]
-  apply List.map_congr_left
-  intro v _
-  rcases v with ⟨n, bits⟩
-  cases n <;> simp [Function.comp, isTimeView, clearInView]
 
 /-- `ClearBit(r, c)` removes exactly the bit (r, c) from every view and changes nothing else. -/
 theorem C19_clear_exact (f : Field) (r c : Nat) :
@@ -73,39 +63,6 @@ theorem C19_changed (f : Field) (r c : Nat) :
 
 /-! ### Queries after a clear -/
 
-theorem mem_insertNat (x y : Nat) (l : List Nat) : x ∈ insertNat y l ↔ x = y ∨ x ∈ l := by
-  induction l with
-  | nil => simp [insertNat]
-  | cons z zs ih =>
-    simp only [insertNat]
-    split
-    · simp
-    · split
-      · rename_i h; subst h; simp
-      · simp [ih]; constructor <;> (intro h; rcases h with h | h | h <;> simp [h])
-
-theorem mem_sortDedup (x : Nat) (l : List Nat) : x ∈ sortDedup l ↔ x ∈ l := by
-  induction l with
-  | nil => simp [sortDedup]
-  | cons y ys ih =>
-    have : sortDedup (y :: ys) = insertNat y (sortDedup ys) := rfl
-    rw [this, mem_insertNat, ih]; simp
-
-/-- A column returned by a union over any list of views is held by one of the field's views. -/
-theorem mem_rowOfViews {f : Field} {r c : Nat} {names : List VName}
-    (h : c ∈ f.rowOfViews r names) : ∃ v ∈ f.views, (r, c) ∈ v.bits := by
-  simp only [Field.rowOfViews, mem_sortDedup, List.mem_flatMap] at h
-  obtain ⟨n, _, hn⟩ := h
-  cases hv : f.view? n with
-  | none => simp [hv] at hn
-  | some v =>
-    simp only [hv, List.mem_map, List.mem_filter] at hn
-    obtain ⟨b, ⟨hb, hr⟩, hc⟩ := hn
-    refine ⟨v, List.mem_of_find?_eq_some hv, ?_⟩
-    have : b = (r, c) := by
-      cases b; simp at hr hc; simp [hr, hc]
-    rw [← this]; exact hb
-
 /-- No query returns the column after a clear: neither `Row(f=r)` (standard view) nor
 `Row(f=r, from=, to=)` for any range (aligned or not, any quantum), nor any other union of views. -/
 theorem C19_no_query_returns (f : Field) (r c : Nat) :
@@ -124,74 +81,6 @@ theorem C19_no_query_returns (f : Field) (r c : Nat) :
   · exact key _
 
 /-! ### Histories: set … clear … set others -/
-
-/-- One write of a history. -/
-inductive Op where
-  | set (r c : Nat) (t : Option Civil)
-  | clear (r c : Nat)
-
-def apply (f : Field) : Op → Field
-  | .set r c t => (f.setBit r c t).1
-  | .clear r c => (clearBit f r c).1
-
-def Op.touches (r c : Nat) : Op → Bool
-  | .set r' c' _ => r' == r && c' == c
-  | .clear _ _ => false
-
-theorem setInViews_other {vs : List FView} {n : VName} {r c r' c' : Nat}
-    (hne : (r', c') ≠ (r, c)) (h : ∀ v ∈ vs, (r, c) ∉ v.bits) :
-    ∀ v ∈ (setInViews vs n r' c').1, (r, c) ∉ v.bits := by
-  induction vs with
-  | nil =>
-    intro v hv
-    simp only [setInViews, List.mem_singleton] at hv
-    subst hv
-    simp only [List.mem_singleton]
-    exact fun e => hne e.symm
-  | cons w ws ih =>
-    intro v hv
-    simp only [setInViews] at hv
-    split at hv
-    · split at hv
-      · exact h v hv
-      · rcases List.mem_cons.mp hv with rfl | hv
-        · simp only [List.mem_cons, not_or]
-          exact ⟨fun e => hne e.symm, h w (by simp)⟩
-        · exact h v (by simp [hv])
-    · rcases List.mem_cons.mp hv with rfl | hv
-      · exact h _ (by simp)
-      · exact ih (fun v hv => h v (by simp [hv])) v hv
-
-theorem setBit_other {f : Field} {r c r' c' : Nat} {t : Option Civil}
-    (hne : (r', c') ≠ (r, c)) (h : ∀ v ∈ f.views, (r, c) ∉ v.bits) :
-    ∀ v ∈ (f.setBit r' c' t).1.views, (r, c) ∉ v.bits := by
-  have h0 : ∀ v ∈ (if f.noStd then (f.views, false) else setInViews f.views .std r' c').1,
-      (r, c) ∉ v.bits := by
-    split
-    · exact h
-    · exact setInViews_other hne h
-  unfold Field.setBit
-  cases t with
-  | none => exact h0
-  | some t =>
-    simp only
-    generalize (if f.noStd then (f.views, false) else setInViews f.views .std r' c') = s0 at h0
-    generalize viewsByTime t f.q = names
-    induction names generalizing s0 with
-    | nil => simpa using h0
-    | cons n ns ih =>
-      simp only [List.foldl_cons]
-      apply ih
-      exact setInViews_other hne h0
-
-theorem clear_other {f : Field} {r c r' c' : Nat} (h : ∀ v ∈ f.views, (r, c) ∉ v.bits) :
-    ∀ v ∈ (clearBit f r' c').1.views, (r, c) ∉ v.bits := by
-  intro v hv
-  rw [C19_clear_exact] at hv
-  obtain ⟨w, hw, rfl⟩ := List.mem_map.mp hv
-  simp only [List.mem_filter, not_and]
-  intro hb
-  exact absurd hb (h w hw)
 
 /-- Whatever history built the field (any timestamps, any other columns, earlier clears), after
 `ClearBit(r, c)` and any further writes that do not set (r, c) again, no view holds (r, c). -/
@@ -216,125 +105,6 @@ theorem C19_cleared_until_set_again (f0 : Field) (before after : List Op) (r c :
     | clear r' c' => exact clear_other h0
 
 /-! ### The comparator of the old code is a strict total order -/
-
-structure StrictTotal {α : Type} (lt : α → α → Bool) : Prop where
-  irrefl : ∀ a, lt a a = false
-  trans : ∀ a b c, lt a b = true → lt b c = true → lt a c = true
-  total : ∀ a b, a ≠ b → lt a b = true ∨ lt b a = true
-
-theorem StrictTotal.asymm {α : Type} {lt : α → α → Bool} (h : StrictTotal lt) (a b : α)
-    (hab : lt a b = true) : lt b a = false := by
-  cases hba : lt b a with
-  | false => rfl
-  | true => have := h.trans a b a hab hba; rw [h.irrefl] at this; cases this
-
-/-- Compare by a key first, then by `next`. -/
-def lexLess {α β : Type} [DecidableEq α] (lt : α → α → Bool) (k : β → α) (next : β → β → Bool)
-    (a b : β) : Bool :=
-  if k a = k b then next a b else lt (k a) (k b)
-
-theorem lexLess_strictTotal {α β : Type} [DecidableEq α] {lt : α → α → Bool} (hlt : StrictTotal lt)
-    (k : β → α) {next : β → β → Bool} (hn : StrictTotal next) : StrictTotal (lexLess lt k next) where
-  irrefl a := by simp [lexLess, hn.irrefl]
-  trans a b c := by
-    unfold lexLess
-    by_cases h1 : k a = k b <;> by_cases h2 : k b = k c
-    · intro hab hbc
-      have h3 : k a = k c := h1.trans h2
-      simp only [h1, if_true] at hab
-      simp only [h2, if_true] at hbc
-      simp only [h3, if_true]
-      exact hn.trans a b c hab hbc
-    · intro hab hbc
-      have h3 : k a ≠ k c := fun e => h2 (h1.symm.trans e)
-      simp only [h2, if_false] at hbc
-      simp only [h3, if_false]
-      rw [h1]; exact hbc
-    · intro hab hbc
-      have h3 : k a ≠ k c := fun e => h1 (e.trans h2.symm)
-      simp only [h1, if_false] at hab
-      simp only [h3, if_false]
-      rw [← h2]; exact hab
-    · intro hab hbc
-      simp only [h1, if_false] at hab
-      simp only [h2, if_false] at hbc
-      have hac := hlt.trans _ _ _ hab hbc
-      have h3 : k a ≠ k c := by
-        intro e; rw [e] at hab
-        have := hlt.asymm _ _ hbc; rw [hab] at this; cases this
-      simp only [h3, if_false]; exact hac
-  total a b hne := by
-    unfold lexLess
-    by_cases h : k a = k b
-    · simp only [h, if_true]; exact hn.total a b hne
-    · have h' : k b ≠ k a := fun e => h e.symm
-      simp only [h, h', if_false]; exact hlt.total _ _ h
-
-theorem digitsLt_strictTotal : StrictTotal digitsLt where
-  irrefl a := by induction a with
-    | nil => rfl
-    | cons x xs ih => simp [digitsLt, ih]
-  trans a := by
-    induction a with
-    | nil => intro b c h1 h2; cases b <;> cases c <;> simp_all [digitsLt]
-    | cons x xs ih =>
-      intro b c h1 h2
-      cases b with
-      | nil => simp [digitsLt] at h1
-      | cons y ys =>
-        cases c with
-        | nil => simp [digitsLt] at h2
-        | cons z zs =>
-          simp only [digitsLt] at h1 h2 ⊢
-          by_cases hxy : x < y
-          · by_cases hyz : y < z
-            · have : x < z := by omega
-              simp [this]
-            · by_cases hzy : z < y
-              · simp [hyz, hzy] at h2
-              · have : y = z := by omega
-                subst this; simp [hxy]
-          · by_cases hyx : y < x
-            · simp [hxy, hyx] at h1
-            · have : x = y := by omega
-              subst this
-              simp only [Nat.lt_irrefl, if_false] at h1
-              by_cases hxz : x < z
-              · simp [hxz]
-              · by_cases hzx : z < x
-                · simp [hxz, hzx] at h2
-                · simp only [hxz, hzx, if_false] at h2 ⊢
-                  exact ih ys zs h1 h2
-  total a := by
-    induction a with
-    | nil => intro b h; cases b with
-      | nil => exact absurd rfl h
-      | cons y ys => simp [digitsLt]
-    | cons x xs ih =>
-      intro b h
-      cases b with
-      | nil => simp [digitsLt]
-      | cons y ys =>
-        simp only [digitsLt]
-        by_cases hxy : x < y
-        · simp [hxy]
-        · by_cases hyx : y < x
-          · simp [hyx]
-          · have : x = y := by omega
-            subst this
-            simp only [Nat.lt_irrefl, if_false]
-            exact ih ys (fun e => h (by rw [e]))
-
-theorem flip_strictTotal {α : Type} {lt : α → α → Bool} (h : StrictTotal lt) :
-    StrictTotal (fun a b => lt b a) where
-  irrefl a := h.irrefl a
-  trans a b c h1 h2 := h.trans c b a h2 h1
-  total a b hne := (h.total b a (fun e => hne e.symm))
-
-theorem less_eq_lex (a b : VDigits) :
-    Old.less a b = lexLess digitsLt (List.take 3) (lexLess digitsLt (List.take 5)
-      (lexLess digitsLt (List.take 7) (fun a b => digitsLt b a))) a b := by
-  simp only [Old.less, Old.groupCompare, lexLess, beq_iff_eq]
 
 /-- The comparator of `allTimeViewsSortedByQuantum` is a strict total order on the time parts of
 view names (irreflexive, transitive, any two different names are ordered) — in particular a strict
